@@ -8,22 +8,34 @@ open Bng AMap
 
 /-! ## running ticks -/
 
-def ticks (n : Nat) : List Op := List.replicate n (.tick true)
+def ticks (n : Nat) : List Op := List.replicate n (.tick .up)
+def pticks (n : Nat) : List Op := List.replicate n (.ptick .up)
 
 theorem run_append (σ : State) (l1 l2 : List Op) : run σ (l1 ++ l2) = run (run σ l1) l2 := by
   induction l1 generalizing σ with
   | nil => rfl
   | cons op l1 ih => exact ih (step σ op)
 
-theorem tick_idle {σ : State} (a : Bool) (h : σ.vol.pc = none) : tick σ a = σ := by
+theorem tick_idle {σ : State} (a : Ans) (h : σ.vol.pc = none) : tick σ a = σ := by
   unfold tick; rw [h]
+
+theorem ptick_idle {σ : State} (a : Ans) (h : σ.vol.ppc = none) : ptick σ a = σ := by
+  unfold ptick; rw [h]
 
 theorem run_ticks_idle {σ : State} (n : Nat) (h : σ.vol.pc = none) : run σ (ticks n) = σ := by
   induction n with
   | zero => rfl
   | succ n ih =>
     simp only [ticks, List.replicate_succ, run, step]
-    rw [tick_idle true h]
+    rw [tick_idle .up h]
+    exact ih
+
+theorem run_pticks_idle {σ : State} (n : Nat) (h : σ.vol.ppc = none) : run σ (pticks n) = σ := by
+  induction n with
+  | zero => rfl
+  | succ n ih =>
+    simp only [pticks, List.replicate_succ, run, step]
+    rw [ptick_idle .up h]
     exact ih
 
 theorem ticks_add (a b : Nat) : ticks (a + b) = ticks a ++ ticks b := by
@@ -35,8 +47,19 @@ theorem run_ticks_ge {σ : State} {k n : Nat} (hk : (run σ (ticks k)).vol.pc = 
   have : n = k + (n - k) := by omega
   rw [this, ticks_add, run_append, run_ticks_idle _ hk]
 
-theorem run_ticks_succ (σ : State) (k : Nat) : run σ (ticks (k + 1)) = run (tick σ true) (ticks k) := by
+theorem run_ticks_succ (σ : State) (k : Nat) : run σ (ticks (k + 1)) = run (tick σ .up) (ticks k) := by
   simp [ticks, List.replicate_succ, run, step]
+
+theorem pticks_add (a b : Nat) : pticks (a + b) = pticks a ++ pticks b := by
+  simp [pticks, List.replicate_append_replicate]
+
+theorem run_pticks_ge {σ : State} {k n : Nat} (hk : (run σ (pticks k)).vol.ppc = none) (hn : k ≤ n) :
+    run σ (pticks n) = run σ (pticks k) := by
+  have : n = k + (n - k) := by omega
+  rw [this, pticks_add, run_append, run_pticks_idle _ hk]
+
+theorem run_pticks_succ (σ : State) (k : Nat) : run σ (pticks (k + 1)) = run (ptick σ .up) (pticks k) := by
+  simp [pticks, List.replicate_succ, run, step]
 
 /-! ## the retry map as a map -/
 
@@ -72,78 +95,84 @@ theorem findP_eraseP_ne (ps : List PRec) {id id' : Nat} (h : id' ≠ id) :
 /-! ## the retry pass with the server up -/
 
 structure ProcDone (τ τ' : State) (ids : List Nat) : Prop where
-  pc : τ'.vol.pc = none
+  pc : τ'.vol.ppc = none
+  apc : τ'.vol.pc = τ.vol.pc
+  up : τ'.up = τ.up
   logMono : ∀ r ∈ τ.log, r ∈ τ'.log
   acked : ∀ id ∈ ids, ∀ p, findP τ.vol.pending id = some p → p.req ∈ τ'.log
 
 theorem tick_procSend_true {τ : State} {id : Nat} {rest : List Nat} {p : PRec}
-    (hpc : τ.vol.pc = some (.procSend id rest)) (hp : findP τ.vol.pending id = some p) :
-    (tick τ true).log = τ.log ++ [p.req] ∧
-    (tick τ true).vol.pending = eraseP τ.vol.pending id ∧
-    (tick τ true).vol.pc = (if p.req.kind == .stop then some (.procRemove p.req.sid rest)
+    (hpc : τ.vol.ppc = some (.procSend id rest)) (hp : findP τ.vol.pending id = some p) :
+    (ptick τ .up).log = τ.log ++ [p.req] ∧
+    (ptick τ .up).vol.pending = eraseP τ.vol.pending id ∧
+    (ptick τ .up).vol.pc = τ.vol.pc ∧ (ptick τ .up).up = τ.up ∧
+    (ptick τ .up).vol.ppc = (if p.req.kind == .stop then some (.procRemove p.req.sid rest)
       else nextProc (eraseP τ.vol.pending id) rest) := by
-  unfold tick
+  unfold ptick
   rw [hpc]
-  simp only [tickProcSend, hp, if_true]
-  split <;> simp_all [setPc, accept, noteOrd]
+  simp only [tickProcSend, hp]
+  split <;> simp_all [setPpc, accept, notePOrd]
 
 theorem tick_procRemove {τ : State} {s : Nat} {rest : List Nat}
-    (hpc : τ.vol.pc = some (.procRemove s rest)) :
-    (tick τ true).log = τ.log ∧ (tick τ true).vol.pending = τ.vol.pending ∧
-    (tick τ true).vol.pc = nextProc τ.vol.pending rest := by
-  unfold tick
+    (hpc : τ.vol.ppc = some (.procRemove s rest)) :
+    (ptick τ .up).log = τ.log ∧ (ptick τ .up).vol.pending = τ.vol.pending ∧
+    (ptick τ .up).vol.pc = τ.vol.pc ∧ (ptick τ .up).up = τ.up ∧
+    (ptick τ .up).vol.ppc = nextProc τ.vol.pending rest := by
+  unfold ptick
   rw [hpc]
-  simp only [tickProcRemove]
-  split <;> simp [setPc, removeFile]
+  simp [tickProcRemove, setPpc, removeFile]
 
-theorem procLoop (ids : List Nat) : ∀ τ : State, τ.vol.pc = nextProc τ.vol.pending ids →
-    ∃ k, k ≤ 2 * ids.length ∧ ProcDone τ (run τ (ticks k)) ids := by
+theorem procLoop (ids : List Nat) : ∀ τ : State, τ.vol.ppc = nextProc τ.vol.pending ids →
+    ∃ k, k ≤ 2 * ids.length ∧ ProcDone τ (run τ (pticks k)) ids := by
   induction ids with
   | nil =>
     intro τ hpc
-    exact ⟨0, by simp, hpc, fun r hr => hr, by simp⟩
+    exact ⟨0, by simp, hpc, rfl, rfl, fun r hr => hr, by simp⟩
   | cons id rest ih =>
     intro τ hpc
     cases hf : findP τ.vol.pending id with
     | none =>
-      have hpc' : τ.vol.pc = nextProc τ.vol.pending rest := by
+      have hpc' : τ.vol.ppc = nextProc τ.vol.pending rest := by
         rw [hpc]; simp [nextProc, hf]
       obtain ⟨k, hk, hd⟩ := ih τ hpc'
-      refine ⟨k, by simp; omega, hd.pc, hd.logMono, ?_⟩
+      refine ⟨k, by simp; omega, hd.pc, hd.apc, hd.up, hd.logMono, ?_⟩
       intro id' hid' p hp
       rcases List.mem_cons.mp hid' with e | e
       · subst e; rw [hf] at hp; simp at hp
       · exact hd.acked id' e p hp
     | some p =>
-      have hpc' : τ.vol.pc = some (.procSend id rest) := by
+      have hpc' : τ.vol.ppc = some (.procSend id rest) := by
         rw [hpc]; simp [nextProc, hf]
-      obtain ⟨hl, hpend, hnpc⟩ := tick_procSend_true hpc' hf
+      obtain ⟨hl, hpend, hapc, hup, hnpc⟩ := tick_procSend_true hpc' hf
       -- the state from which the rest of the list is processed
-      have key : ∃ j, j ≤ 2 ∧ j ≥ 1 ∧ (run τ (ticks j)).vol.pc = nextProc (run τ (ticks j)).vol.pending rest ∧
-          (run τ (ticks j)).log = τ.log ++ [p.req] ∧ (run τ (ticks j)).vol.pending = eraseP τ.vol.pending id := by
+      have key : ∃ j, j ≤ 2 ∧ j ≥ 1 ∧ (run τ (pticks j)).vol.ppc = nextProc (run τ (pticks j)).vol.pending rest ∧
+          (run τ (pticks j)).log = τ.log ++ [p.req] ∧ (run τ (pticks j)).vol.pending = eraseP τ.vol.pending id ∧
+          (run τ (pticks j)).vol.pc = τ.vol.pc ∧ (run τ (pticks j)).up = τ.up := by
         by_cases hk : p.req.kind = .stop
         · refine ⟨2, by omega, by omega, ?_⟩
-          have h1 : (tick τ true).vol.pc = some (.procRemove p.req.sid rest) := by
+          have h1 : (ptick τ .up).vol.ppc = some (.procRemove p.req.sid rest) := by
             rw [hnpc]; simp [hk]
-          obtain ⟨a1, a2, a3⟩ := tick_procRemove h1
-          rw [run_ticks_succ, run_ticks_succ]
-          simp only [ticks, List.replicate_zero, run]
-          refine ⟨?_, ?_, ?_⟩
+          obtain ⟨a1, a2, a4, a5, a3⟩ := tick_procRemove h1
+          rw [run_pticks_succ, run_pticks_succ]
+          simp only [pticks, List.replicate_zero, run]
+          refine ⟨?_, ?_, ?_, ?_, ?_⟩
           · rw [a3, a2]
           · rw [a1, hl]
           · rw [a2, hpend]
+          · rw [a4, hapc]
+          · rw [a5, hup]
         · refine ⟨1, by omega, by omega, ?_⟩
-          rw [run_ticks_succ]
-          simp only [ticks, List.replicate_zero, run]
-          refine ⟨?_, hl, hpend⟩
+          rw [run_pticks_succ]
+          simp only [pticks, List.replicate_zero, run]
+          refine ⟨?_, hl, hpend, hapc, hup⟩
           rw [hnpc, hpend]
           have : (p.req.kind == Kind.stop) = false := by simpa using hk
           simp [this]
-      obtain ⟨j, hj2, hj1, jpc, jlog, jpend⟩ := key
-      obtain ⟨k, hk, hd⟩ := ih (run τ (ticks j)) jpc
+      obtain ⟨j, hj2, hj1, jpc, jlog, jpend, japc, jup⟩ := key
+      obtain ⟨k, hk, hd⟩ := ih (run τ (pticks j)) jpc
       refine ⟨j + k, by simp; omega, ?_⟩
-      rw [ticks_add, run_append]
-      refine ⟨hd.pc, ?_, ?_⟩
+      rw [pticks_add, run_append]
+      refine ⟨hd.pc, by rw [hd.apc, japc], by rw [hd.up, jup], ?_, ?_⟩
       · intro r hr
         apply hd.logMono
         rw [jlog]; exact List.mem_append_left _ hr
@@ -160,27 +189,26 @@ theorem procLoop (ids : List Nat) : ∀ τ : State, τ.vol.pc = nextProc τ.vol.
           · apply hd.acked id' e' q
             rw [jpend, findP_eraseP_ne _ e]; exact hq
 
-
 /-! ## the recovery procedure with the server up -/
 
 theorem tick_recSend_none {τ : State} {s : Nat} {rest recd order : List Nat}
     (hpc : τ.vol.pc = some (.recSend s rest recd order)) (hf : lookup τ.dur.files s = none) :
-    tick τ true = setPc τ (some (nextRec recd order rest)) := by
+    tick τ .up = setPc τ (some (nextRec recd order rest)) := by
   unfold tick
   rw [hpc]
   simp only [tickRecSend, hf]
 
 theorem tick_recSend_true {τ : State} {s : Nat} {rest recd order : List Nat} {x : Sess}
     (hpc : τ.vol.pc = some (.recSend s rest recd order)) (hf : lookup τ.dur.files s = some x) :
-    tick τ true = setPc (accept τ (stopRec s x (if x.stopCause = 0 then 11 else x.stopCause) (x.lastIn, x.lastOut)))
+    tick τ .up = setPc (accept τ (stopRec s x (if x.stopCause = 0 then 11 else x.stopCause) (x.lastIn, x.lastOut)) true)
       (some (.recRemove s rest recd order)) := by
   unfold tick
   rw [hpc]
-  simp only [tickRecSend, hf, send, if_true]
+  simp only [tickRecSend, hf, send]
 
 theorem tick_recRemove {τ : State} {s : Nat} {rest recd order : List Nat}
     (hpc : τ.vol.pc = some (.recRemove s rest recd order)) :
-    tick τ true = setPc (removeFile τ s) (some (nextRec (s :: recd) order rest)) := by
+    tick τ .up = setPc (removeFile τ s) (some (nextRec (s :: recd) order rest)) := by
   unfold tick
   rw [hpc]
   simp only [tickRecRemove]
@@ -191,6 +219,7 @@ structure RecDone (τ τ' : State) (rest recd recd' order : List Nat) : Prop whe
   pending : τ'.vol.pending = τ.vol.pending
   pfile : τ'.dur.pfile = τ.dur.pfile
   up : τ'.up = τ.up
+  ppc : τ'.vol.ppc = τ.vol.ppc
   acked : ∀ s ∈ rest, (lookup τ.dur.files s).isSome → stopIn τ'.log s
   recd : ∀ s ∈ recd', s ∈ recd ∨ stopIn τ'.log s
 
@@ -200,21 +229,22 @@ theorem recLoop (order : List Nat) (rest : List Nat) : ∀ (τ : State) (recd : 
   induction rest with
   | nil =>
     intro τ recd hpc
-    exact ⟨0, recd, by simp, hpc, fun r hr => hr, rfl, rfl, rfl, by simp, fun s hs => Or.inl hs⟩
+    exact ⟨0, recd, by simp, hpc, fun r hr => hr, rfl, rfl, rfl, rfl, by simp, fun s hs => Or.inl hs⟩
   | cons s rest ih =>
     intro τ recd hpc
     have hpc' : τ.vol.pc = some (.recSend s rest recd order) := hpc
     cases hf : lookup τ.dur.files s with
     | none =>
       have e := tick_recSend_none hpc' hf
-      obtain ⟨k, recd', hk, hd⟩ := ih (tick τ true) recd (by rw [e]; rfl)
+      obtain ⟨k, recd', hk, hd⟩ := ih (tick τ .up) recd (by rw [e]; rfl)
       refine ⟨k + 1, recd', by simp; omega, ?_⟩
       rw [run_ticks_succ]
-      refine ⟨hd.pc, ?_, ?_, ?_, ?_, ?_, hd.recd⟩
+      refine ⟨hd.pc, ?_, ?_, ?_, ?_, ?_, ?_, hd.recd⟩
       · intro r hr; apply hd.logMono; rw [e]; exact hr
       · rw [hd.pending, e]; rfl
       · rw [hd.pfile, e]; rfl
       · rw [hd.up, e]; rfl
+      · rw [hd.ppc, e]; rfl
       · intro s' hs' hsome
         rcases List.mem_cons.mp hs' with e' | e'
         · subst e'; rw [hf] at hsome; simp at hsome
@@ -222,24 +252,25 @@ theorem recLoop (order : List Nat) (rest : List Nat) : ∀ (τ : State) (recd : 
           rw [e]; exact hsome
     | some x =>
       have e1 := tick_recSend_true hpc' hf
-      have hpc2 : (tick τ true).vol.pc = some (.recRemove s rest recd order) := by rw [e1]; rfl
+      have hpc2 : (tick τ .up).vol.pc = some (.recRemove s rest recd order) := by rw [e1]; rfl
       have e2 := tick_recRemove hpc2
-      have hlog2 : (tick (tick τ true) true).log = τ.log ++
+      have hlog2 : (tick (tick τ .up) .up).log = τ.log ++
           [stopRec s x (if x.stopCause = 0 then 11 else x.stopCause) (x.lastIn, x.lastOut)] := by
         rw [e2, e1]; rfl
-      have hstop : stopIn (tick (tick τ true) true).log s := by
+      have hstop : stopIn (tick (tick τ .up) .up).log s := by
         rw [hlog2]
         exact ⟨_, List.mem_append_right _ List.mem_cons_self, rfl, rfl⟩
-      obtain ⟨k, recd', hk, hd⟩ := ih (tick (tick τ true) true) (s :: recd) (by rw [e2]; rfl)
+      obtain ⟨k, recd', hk, hd⟩ := ih (tick (tick τ .up) .up) (s :: recd) (by rw [e2]; rfl)
       refine ⟨k + 2, recd', by simp; omega, ?_⟩
       rw [show k + 2 = (k + 1) + 1 from rfl, run_ticks_succ, run_ticks_succ]
-      have mono : ∀ r ∈ (tick (tick τ true) true).log, r ∈ (run (tick (tick τ true) true) (ticks k)).log :=
+      have mono : ∀ r ∈ (tick (tick τ .up) .up).log, r ∈ (run (tick (tick τ .up) .up) (ticks k)).log :=
         hd.logMono
-      refine ⟨hd.pc, ?_, ?_, ?_, ?_, ?_, ?_⟩
+      refine ⟨hd.pc, ?_, ?_, ?_, ?_, ?_, ?_, ?_⟩
       · intro r hr; apply mono; rw [hlog2]; exact List.mem_append_left _ hr
       · rw [hd.pending, e2, e1]; rfl
       · rw [hd.pfile, e2, e1]; rfl
       · rw [hd.up, e2, e1]; rfl
+      · rw [hd.ppc, e2, e1]; rfl
       · intro s' hs' hsome
         by_cases es : s' = s
         · subst es
@@ -395,7 +426,7 @@ theorem loadPending_find_loaded (recd : List Nat) (l : List PRec) : ∀ (σ : St
 
 /-! ## the sessions directory exists once a session was started -/
 
-theorem tick_dirMade (σ : State) (a : Bool) (h : σ.dur.dirMade = true) : (tick σ a).dur.dirMade = true := by
+theorem tick_dirMade (σ : State) (a : Ans) (h : σ.dur.dirMade = true) : (tick σ a).dur.dirMade = true := by
   unfold tick
   split
   · exact h
@@ -406,12 +437,8 @@ theorem tick_dirMade (σ : State) (a : Bool) (h : σ.dur.dirMade = true) : (tick
   · exact h
   · unfold tickStopRemove; repeat' (first | exact h | split)
   · unfold tickIntSend; repeat' (first | exact h | split)
-  · unfold tickProcSend
-    split
-    · exact h
-    · dsimp only
-      repeat' (first | exact h | split)
-  · unfold tickProcRemove; repeat' (first | exact h | split)
+  · exact h
+  · exact h
   · unfold tickDrainSend; repeat' (first | exact h | split)
   · exact h
   · unfold tickPersistPending; dsimp only; repeat' (first | exact h | split)
@@ -424,14 +451,69 @@ theorem tick_dirMade (σ : State) (a : Bool) (h : σ.dur.dirMade = true) : (tick
   · exact h
 
 theorem step_dirMade (σ : State) (op : Op) (h : σ.dur.dirMade = true) : (step σ op).dur.dirMade = true := by
-  by_cases ht : ∃ a, op = .tick a
-  · obtain ⟨a, e⟩ := ht; subst e; exact tick_dirMade σ a h
-  · have := step_ghost_of_tick (fun σ => σ.dur.dirMade) (fun _ _ => rfl) (fun _ _ => rfl) (fun _ _ => rfl)
-      (fun _ _ => rfl) (fun _ _ _ => rfl) (fun _ _ => rfl) (fun _ => rfl) (fun _ _ _ => rfl) σ op
-      (fun a e => ht ⟨a, e⟩)
-    rw [this]; exact h
+  cases op with
+  | tick a => exact tick_dirMade σ a h
+  | ptick a =>
+    have := ptick_ghost (fun σ => σ.dur.dirMade) (fun _ _ => rfl) (fun _ _ => rfl) (fun _ _ _ => rfl)
+      (fun _ _ => rfl) (fun _ _ => rfl) (fun _ _ _ => rfl) σ a
+    simp only [step]; rw [this]; exact h
+  | crash => exact h
+  | crashTorn =>
+    simp only [step, crash]
+    unfold tornEffect
+    repeat' (first | exact h | rfl | split)
+  | ctr s i o => exact h
+  | restart order =>
+    simp only [step]
+    split
+    · exact h
+    · unfold callRestart; dsimp only; split <;> exact h
+  | start s ident =>
+    simp only [step]
+    split
+    · exact h
+    · split
+      · exact h
+      · unfold callStart
+        split <;> exact h
+  | interim s =>
+    simp only [step]
+    split
+    · exact h
+    · split
+      · exact h
+      · unfold callInterim
+        split
+        · exact h
+        · split <;> exact h
+  | stop s cause =>
+    simp only [step]
+    split
+    · exact h
+    · split
+      · exact h
+      · unfold callStop
+        split <;> exact h
+  | deq =>
+    simp only [step]
+    split
+    · exact h
+    · split
+      · exact h
+      · unfold callDeq
+        split <;> exact h
+  | retry order =>
+    simp only [step]
+    split
+    · exact h
+    · split <;> exact h
+  | shutdown order =>
+    simp only [step]
+    split
+    · exact h
+    · split <;> exact h
 
-theorem tick_started_dir (σ : State) (a : Bool) (s : Nat) (h : s ∈ (tick σ a).started) :
+theorem tick_started_dir (σ : State) (a : Ans) (s : Nat) (h : s ∈ (tick σ a).started) :
     s ∈ σ.started ∨ (tick σ a).dur.dirMade = true := by
   rcases tick_started σ a s h with h1 | h1
   · exact Or.inl h1
@@ -464,15 +546,12 @@ theorem started_dir_run (c : Cfg) (ops : List Op) :
         · exact e
         · exact absurd (h e) hd
       obtain ⟨s, hs'⟩ := List.exists_mem_of_ne_nil _ hne
-      by_cases ht : ∃ a, op = .tick a
-      · obtain ⟨a, e⟩ := ht; subst e
+      rcases started_step σ op s hs' with h1 | ⟨⟨a, e⟩, _⟩
+      · rw [hs] at h1; simp at h1
+      · subst e
         rcases tick_started_dir σ a s hs' with h1 | h1
         · rw [hs] at h1; simp at h1
         · exact h1
-      · have := step_ghost_of_tick State.started (fun _ _ => rfl) (fun _ _ => rfl) (fun _ _ => rfl)
-          (fun _ _ => rfl) (fun _ _ _ => rfl) (fun _ _ => rfl) (fun _ => rfl) (fun _ _ _ => rfl) σ op
-          (fun a e => ht ⟨a, e⟩)
-        rw [this, hs] at hs'; simp at hs'
 
 /-! ## restart_drains -/
 
@@ -483,7 +562,7 @@ def durableStop (σ : State) (s : Nat) : Prop :=
 
 /-- restart, run the recovery to completion with the server up, one retry pass with the server up -/
 def drainOps (order order2 : List Nat) (n : Nat) : List Op :=
-  [Op.restart order] ++ ticks n ++ [Op.retry order2] ++ ticks n
+  [Op.restart order] ++ ticks n ++ [Op.retry order2] ++ pticks n
 
 def drainBound (σ : State) : Nat :=
   2 * (keys σ.dur.files).length + 2 * (match σ.dur.pfile with | some ps => ps.length | none => 0) + 2
@@ -516,40 +595,41 @@ theorem mem_sortNat {y : Nat} {l : List Nat} : y ∈ sortNat l ↔ y ∈ l := by
     unfold sortNat at ih
     rw [ih]
 
-theorem tick_recPendRemove {τ : State} {a : Bool} (h : τ.vol.pc = some .recPendRemove) :
+theorem tick_recPendRemove {τ : State} {a : Ans} (h : τ.vol.pc = some .recPendRemove) :
     tick τ a = tickRecPendRemove τ := by
   unfold tick; rw [h]
 
 /-- the two ticks that end the recovery procedure (load pending.json, remove it) -/
 theorem recTail {τ : State} {recd order : List Nat} (hpc : τ.vol.pc = some (.recLoad recd order)) :
     let τ2 := run τ (ticks 2)
-    τ2.vol.pc = none ∧ τ2.log = τ.log ∧ τ2.up = τ.up ∧
+    τ2.vol.pc = none ∧ τ2.log = τ.log ∧ τ2.up = τ.up ∧ τ2.vol.ppc = τ.vol.ppc ∧
     (∀ ps id p, τ.dur.pfile = some ps → findP ps id = some p → ¬ skipped recd p →
       ∃ p', findP τ2.vol.pending p.id = some p' ∧ p'.req = p.req) := by
   intro τ2
-  have e2 : τ2 = tick (tick τ true) true := by
+  have e2 : τ2 = tick (tick τ .up) .up := by
     simp [τ2, ticks, List.replicate, run, step]
   cases hpf : τ.dur.pfile with
   | none =>
-    have e1 : tick τ true = setPc τ none := by
+    have e1 : tick τ .up = setPc τ none := by
       unfold tick; rw [hpc]; simp only [tickRecLoad, hpf]
-    have e3 : tick (tick τ true) true = setPc τ none := by
-      rw [e1]; exact tick_idle true rfl
+    have e3 : tick (tick τ .up) .up = setPc τ none := by
+      rw [e1]; exact tick_idle .up rfl
     rw [e2, e3]
-    refine ⟨rfl, rfl, rfl, ?_⟩
+    refine ⟨rfl, rfl, rfl, rfl, ?_⟩
     intro ps id p h; simp at h
   | some ps =>
-    have e1 : tick τ true = setPc (loadPending τ recd (recOfIds ps (normalize order (ps.map (·.id)))))
+    have e1 : tick τ .up = setPc (loadPending τ recd (recOfIds ps (normalize order (ps.map (·.id)))))
         (some .recPendRemove) := by
       unfold tick; rw [hpc]; simp only [tickRecLoad, hpf]
-    have e3 : tick (tick τ true) true = tickRecPendRemove (tick τ true) := by
-      have : (tick τ true).vol.pc = some .recPendRemove := by rw [e1]; rfl
+    have e3 : tick (tick τ .up) .up = tickRecPendRemove (tick τ .up) := by
+      have : (tick τ .up).vol.pc = some .recPendRemove := by rw [e1]; rfl
       exact tick_recPendRemove this
     have sp := loadPending_spec τ recd (recOfIds ps (normalize order (ps.map (·.id))))
     rw [e2, e3, e1]
-    refine ⟨rfl, ?_, ?_, ?_⟩
+    refine ⟨rfl, ?_, ?_, ?_, ?_⟩
     · exact sp.log
     · exact sp.up
+    · exact sp.ppc
     · intro ps' id p h1 h2 h3
       simp only [Option.some.injEq] at h1
       subst h1
@@ -565,7 +645,8 @@ theorem recTail {τ : State} {recd order : List Nat} (hpc : τ.vol.pc = some (.r
 theorem restart_drains_core (σ : State) (hdown : σ.up = false) (hdir : σ.dur.dirMade = true)
     (order order2 : List Nat) :
     ∃ N, ∀ n, N ≤ n → ∀ s, durableStop σ s →
-      stopIn (run σ (drainOps order order2 n)).log s ∧ (run σ (drainOps order order2 n)).vol.pc = none := by
+      stopIn (run σ (drainOps order order2 n)).log s ∧ (run σ (drainOps order order2 n)).vol.pc = none ∧
+      (run σ (drainOps order order2 n)).vol.ppc = none := by
   -- the restart call
   let σ1 := step σ (.restart order)
   have hσ1 : σ1 = setPc (begin { σ with up := true, vol := {} } .ok)
@@ -575,35 +656,36 @@ theorem restart_drains_core (σ : State) (hdown : σ.up = false) (hdir : σ.dur.
   have h1pc : σ1.vol.pc = some (nextRec [] order (sortNat (keys σ.dur.files))) := by rw [hσ1]; rfl
   obtain ⟨k1, recd', _, rd⟩ := recLoop order (sortNat (keys σ.dur.files)) σ1 [] h1pc
   let τ := run σ1 (ticks k1)
-  obtain ⟨t1, t2, t3, t4⟩ := recTail rd.pc
+  obtain ⟨t1, t2, t3, t5, t4⟩ := recTail rd.pc
   -- the state after the recovery
   let T1 := run σ1 (ticks (k1 + 2))
   have hT1 : T1 = run τ (ticks 2) := by simp only [T1, τ, ticks_add, run_append]
   have T1pc : T1.vol.pc = none := by rw [hT1]; exact t1
   have T1up : T1.up = true := by rw [hT1, t3, rd.up, hσ1]; rfl
+  have T1ppc : T1.vol.ppc = none := by rw [hT1, t5, rd.ppc, hσ1]; rfl
   have T1log : ∀ r ∈ τ.log, r ∈ T1.log := by rw [hT1, t2]; exact fun r hr => hr
   -- the retry call
   let σ2 := step T1 (.retry order2)
   have hσ2 : σ2 = callRetry T1 order2 := by
-    simp only [σ2, step, T1up, T1pc]
-    simp
-  have h2pc : σ2.vol.pc = nextProc σ2.vol.pending (normalize order2 (T1.vol.pending.map (·.id))) := by
+    simp only [σ2, step, T1up, T1pc, T1ppc]
+    simp [procAlive]
+  have h2pc : σ2.vol.ppc = nextProc σ2.vol.pending (normalize order2 (T1.vol.pending.map (·.id))) := by
     rw [hσ2]; rfl
   obtain ⟨k2, _, pd⟩ := procLoop _ σ2 h2pc
   refine ⟨max (k1 + 2) k2, ?_⟩
   intro n hn s hs
   have hn1 : k1 + 2 ≤ n := by omega
   have hn2 : k2 ≤ n := by omega
-  have e : run σ (drainOps order order2 n) = run σ2 (ticks k2) := by
+  have e : run σ (drainOps order order2 n) = run σ2 (pticks k2) := by
     unfold drainOps
     rw [run_append, run_append, run_append]
     have a1 : run σ [Op.restart order] = σ1 := rfl
     rw [a1, run_ticks_ge (k := k1 + 2) T1pc hn1]
     have a2 : run (run σ1 (ticks (k1 + 2))) [Op.retry order2] = σ2 := rfl
-    rw [a2, run_ticks_ge pd.pc hn2]
+    rw [a2, run_pticks_ge pd.pc hn2]
   rw [e]
-  refine ⟨?_, pd.pc⟩
-  have lift : ∀ r ∈ τ.log, r ∈ (run σ2 (ticks k2)).log := by
+  refine ⟨?_, by rw [pd.apc, hσ2]; exact T1pc, pd.pc⟩
+  have lift : ∀ r ∈ τ.log, r ∈ (run σ2 (pticks k2)).log := by
     intro r hr
     apply pd.logMono
     rw [hσ2]
@@ -638,41 +720,15 @@ theorem restart_drains_core (σ : State) (hdown : σ.up = false) (hdir : σ.dur.
 
 
 /-- the server's log only grows -/
-theorem log_mono_tick (σ : State) (a : Bool) (r : Rec) (h : r ∈ σ.log) : r ∈ (tick σ a).log := by
-  unfold tick
-  split
-  · exact h
-  · unfold tickStartSend send accept; repeat' (first | exact h | exact List.mem_append_left _ h | split)
-  · unfold tickStartPersist persistSession; repeat' (first | exact h | split)
-  · unfold tickStopPersist persistSession; repeat' (first | exact h | split)
-  · unfold tickStopSend send accept; repeat' (first | exact h | exact List.mem_append_left _ h | split)
-  · exact h
-  · unfold tickStopRemove; repeat' (first | exact h | split)
-  · unfold tickIntSend accept; repeat' (first | exact h | exact List.mem_append_left _ h | split)
-  · unfold tickProcSend
-    split
-    · exact h
-    · dsimp only
-      unfold accept
-      repeat' (first | exact h | exact List.mem_append_left _ h | split)
-  · unfold tickProcRemove; repeat' (first | exact h | split)
-  · unfold tickDrainSend accept; repeat' (first | exact h | exact List.mem_append_left _ h | split)
-  · exact h
-  · exact h
-  · unfold tickRecSend send accept; repeat' (first | exact h | exact List.mem_append_left _ h | split)
-  · exact h
-  · unfold tickRecLoad
-    split
-    · exact h
-    · simp only [setPc]; rw [(loadPending_spec _ _ _).log]; exact h
-  · exact h
-
 theorem log_mono_step (σ : State) (op : Op) (r : Rec) (h : r ∈ σ.log) : r ∈ (step σ op).log := by
   by_cases ht : ∃ a, op = .tick a
   · obtain ⟨a, e⟩ := ht; subst e; exact log_mono_tick σ a r h
-  · have := step_ghost_of_tick State.log (fun _ _ => rfl) (fun _ _ => rfl) (fun _ _ => rfl)
-      (fun _ _ => rfl) (fun _ _ _ => rfl) (fun _ _ => rfl) (fun _ => rfl) (fun _ _ _ => rfl) σ op
-      (fun a e => ht ⟨a, e⟩)
-    rw [this]; exact h
+  · by_cases hp : ∃ a, op = .ptick a
+    · obtain ⟨a, e⟩ := hp; subst e; exact log_mono_ptick σ a r h
+    · have := step_ghost_simple State.log (fun _ _ => rfl) (fun _ _ => rfl) (fun _ _ => rfl)
+        (fun _ _ => rfl) (fun _ _ => rfl) (fun _ _ => rfl) (fun _ _ => rfl) (fun _ _ _ => rfl)
+        (fun _ _ => rfl) (fun _ => rfl) (fun _ _ => rfl) (fun _ _ _ => rfl) σ op
+        (fun a e => ht ⟨a, e⟩) (fun a e => hp ⟨a, e⟩)
+      rw [this]; exact h
 
 end Bng.Acct
